@@ -57,6 +57,7 @@ def generate(rng, i, tier):
         st = {"name": "S%d" % s, "markets": list(range(n_markets)), "client": (s % 2) if two else 0, "max_live_trade_count": 20, "max_order_exposure": 500, "max_selection_exposure": 5000}
         sc["strategies"].append(st)
         common.agentgen.add_script(rng, sc, st, mix)
+    common._tz(sc)
     return sc
 
 
